@@ -502,6 +502,11 @@ func (b *backend) PropFind(r *http.Request, propfind *internal.PropFind, depth i
 		resps = append(resps, *resp)
 	}
 
+	if len(resps) == 0 {
+		// no resource of the hierarchy lives at this path
+		return nil, internal.HTTPErrorf(http.StatusNotFound, "caldav: resource not found")
+	}
+
 	return internal.NewMultiStatus(resps...), nil
 }
 
